@@ -86,7 +86,8 @@ def run(chk: core.Check) -> None:
     chk.rule = (
         "tables drawn as run-length encodings (repeats, ragged rows, styled empty cells, trailing empty rows/cells), 0-2 edits first; transpose x2, "
         "rstrip (aggressive or not) x2, optimize_width x2, compositions; spans: random areas on 2-5 x 2-5 tables with optional existing spans, set/del and "
-        "overlapping attempts; CSV: value matrices over ints, floats, bools, plain strings (+ a stream of the classes CSV cannot carry). non-trivial = "
+        "overlapping attempts; merged cells as office applications store them (covered cells in repeated runs, styled or not, at the edges) under "
+        "rstrip / optimize_width compositions, then overlap / del_span; CSV: value matrices over ints, floats, bools, plain strings (+ a stream of the classes CSV cannot carry). non-trivial = "
         "table has a repeat >= 2, a ragged row, a styled empty cell, a trailing empty row/cell, an existing span; distinct by (encoding, operation)"
     )
     lines, expects = [], []
@@ -210,6 +211,7 @@ def run(chk: core.Check) -> None:
             chk.disagree({**case, "line": line, "impl": [cs, rs], "model": [st["cols"], st["rows"]]}, "model grid != implementation grid")
 
     span_part(chk)
+    merged_part(chk)
     csv_part(chk)
 
 
@@ -239,6 +241,72 @@ VALS = [None, "a", "b", "c", "d", 7, 42]
 
 def enc_sgrid(g):
     return "-" if not g else "/".join("e" if not r else ",".join(f"{VALS.index(c[0])}.{c[1]}.{c[2]}.{c[3]}" for c in r) for r in g)
+
+
+def merged_part(chk):
+    """spans as office applications store them (covered cells in repeated runs, styled or not, at the right / bottom edge)
+    under rstrip / optimize_width and their compositions with set_span / del_span: a cell that belongs to a span is not an
+    empty trailing cell, so the span still covers exactly its area, nothing non-empty moves, the operation is idempotent,
+    an overlapping set_span is still refused and del_span still restores plain cells"""
+    rng = chk.rng
+    for _ in range(chk.n(300, 4000)):
+        t, info = T.gen_merged_table(rng)
+        g0 = sgrid_of(t)
+        ops = [rng.choice(["rstrip", "rstrip_aggr", "optimize_width"]) for _k in range(rng.randint(1, 2))]
+        case = {"op": "merged", **info, "ops": ops}
+        chk.case(("merged", info["merged_xml"], tuple(ops)), nontrivial=True, sample=case)
+        chk.count("merged", "+".join(ops))
+        try:
+            for o in ops:
+                if o == "optimize_width":
+                    t.optimize_width()
+                else:
+                    t.rstrip(aggressive=o == "rstrip_aggr")
+            g1 = sgrid_of(t)
+            last = ops[-1]
+            if last == "optimize_width":
+                t.optimize_width()
+            else:
+                t.rstrip(aggressive=last == "rstrip_aggr")
+            g2 = sgrid_of(t)
+        except Exception as e:  # noqa: BLE001
+            chk.fail({**case, "exception": repr(e)}, f"{'+'.join(ops)} raised {type(e).__name__} on a table with merged cells")
+            continue
+        bad = None
+        for j, row in enumerate(g0):
+            for i, c in enumerate(row):
+                if c[0] is not None or c[1] or c[2] or c[3]:
+                    now = g1[j][i] if j < len(g1) and i < len(g1[j]) else None
+                    if now != c:
+                        bad = (i, j, c, now)
+                        break
+            if bad:
+                break
+        if bad:
+            chk.fail({**case, "x": bad[0], "y": bad[1], "before": bad[2], "after": bad[3]},
+                     "stripping / width-optimising removed or changed a cell that holds a value or belongs to a span")
+            continue
+        if g2 != g1:
+            chk.fail({**case, "once": g1, "twice": g2}, f"{last} is not idempotent on a table with merged cells")
+            continue
+        for (x, y, z, tt) in info["areas"]:
+            # the span still covers exactly its area
+            okc = all((g1[j][i][1], g1[j][i][2], g1[j][i][3]) == ((z - x + 1, tt - y + 1, 0) if (i, j) == (x, y) else (0, 0, 1))
+                      for j in range(y, tt + 1) for i in range(x, z + 1) if j < len(g1) and i < len(g1[j]))
+            whole = all(j < len(g1) and i < len(g1[j]) for j in range(y, tt + 1) for i in range(x, z + 1))
+            if not (okc and whole):
+                chk.fail({**case, "area": (x, y, z, tt), "after": g1}, "after stripping the span no longer covers exactly its area")
+                break
+            if t.set_span((x, y, min(z + 1, len(g1[y]) - 1) if z + 1 < len(g1[y]) else z, tt)) and (z + 1 < len(g1[y])):
+                chk.fail({**case, "area": (x, y, z, tt)}, "after stripping, set_span accepts an area that overlaps the existing span")
+                break
+            if not t.del_span((x, y, x, y)):
+                chk.fail({**case, "area": (x, y, z, tt)}, "after stripping, del_span does not find the span")
+                break
+            g3 = sgrid_of(t)
+            if any(g3[j][i][1] or g3[j][i][2] or g3[j][i][3] for j in range(y, tt + 1) for i in range(x, z + 1)):
+                chk.fail({**case, "area": (x, y, z, tt), "after_del_span": g3}, "after stripping, del_span leaves covered / spanned cells in the area")
+                break
 
 
 def span_part(chk):
